@@ -305,6 +305,46 @@ def build(run):
     symmetric("tetrahedron", 3, "identity")
     symmetric("triangle", 2, "contra")
 
+    # ---- frame: physical_value_shape / apply are functions of (element, domain) only.  ONE element object used on meshes of different
+    # geometric dimension, one after the other (and back): each use must meet the contract of that mesh, whatever was computed before
+    def reuse(kinds, cellname, gs):
+        tag = f"reuse-one-element[{'+'.join(kinds)}]/{cellname}@" + "->".join(f"{g}d" for g in gs)
+
+        def thunk():
+            cell = getattr(ufl, cellname)
+            t = cell.topological_dimension
+            subs, rshapes = zip(*[elem(kd, cell, t) for kd in kinds])
+            el = subs[0] if len(kinds) == 1 else E.MixedElement(list(subs))
+            n = 0
+            for g in gs:
+                msh = mesh(cellname, g)
+                V = ufl.FunctionSpace(msh, el)
+                f = ufl.Coefficient(V)
+                if len(kinds) == 1:
+                    want = phys_shape(kinds[0], rshapes[0], g)
+                    spec = (lambda f=f, g=g: lambda w, c, env: push(kinds[0], w, lambda cc: w.symbol(f"rv{f.count()}", cc), rshapes[0], g, t, c))()
+                else:
+                    total, spec = mixed_spec(kinds, rshapes, g, t, f.count())
+                    want = (total,)
+                if tuple(V.value_shape) != tuple(want):
+                    return violated(f"{tag}: on the {g}d mesh value_shape is {V.value_shape}, declared physical shape {want} (the element was used on "
+                                    f"meshes of dimension {gs[:gs.index(g)]} before)", reproduced=True, replay={"element": repr(el), "gdims": list(gs)}, backend="structural")
+                try:
+                    r = apply_real(f)
+                except Exception as ex:  # noqa: BLE001
+                    return violated(f"{tag}: pullback raised {type(ex).__name__}: {ex} on the {g}d mesh", reproduced=True, replay={"element": repr(el), "gdims": list(gs)})
+                res = check_same(mkworld, r, spec, want, timeout_ms=tmo, what=f"{tag} (use on the {g}d mesh)")
+                if res.status != "proved":
+                    return res
+                n += 1
+            return proved("exec+z3", vcs=n, sample=f"{tag}: {n} uses of one element object, each meets the contract of its own mesh")
+        run.add(tag, thunk, kind="values")
+    for kinds in [("contra",), ("cov",), ("dcov",), ("contra", "identity"), ("identity", "cov"), ("dcontra", "l2"), ("contra", "identity", "cov")]:
+        reuse(kinds, "triangle", (2, 3, 2))
+        reuse(kinds, "triangle", (3, 2))
+    reuse(("contra", "identity"), "interval", (1, 2, 1))
+    reuse(("cov",), "interval", (2, 1))
+
     def canary():
         msh = mesh("triangle", 2)
         el, rshape = elem("contra", msh.ufl_cell(), 2)
